@@ -68,6 +68,70 @@ where
     if make().fold(0usize, |a, _| a + 1) != n || make().rfold(0usize, |a, _| a + 1) != n {
         return Err(format!("{what}.fold()/rfold() do not visit {n} items"));
     }
+    // the bulk consumers (a type may override fold / rfold / try_fold / try_rfold, which for_each, rev().
+    // for_each, find, rfind, position, all, any, last, max, min ... are built on): same items, same order
+    let fwd: Vec<T> = items.to_vec();
+    let bwd: Vec<T> = items.iter().rev().cloned().collect();
+    let push = |mut a: Vec<T>, x: I::Item| {
+        a.push(conv(x));
+        a
+    };
+    if make().fold(Vec::new(), push) != fwd {
+        return Err(format!("{what}.fold() visits {:?}, the items are {fwd:?}", make().fold(Vec::new(), push)));
+    }
+    if make().rfold(Vec::new(), push) != bwd {
+        return Err(format!("{what}.rfold() visits {:?}, the items from the back are {bwd:?}", make().rfold(Vec::new(), push)));
+    }
+    let mut seen = Vec::new();
+    make().rev().for_each(|x| seen.push(conv(x)));
+    if seen != bwd {
+        return Err(format!("{what}.rev().for_each() visits {seen:?}, expected {bwd:?}"));
+    }
+    let mut seen = Vec::new();
+    make().for_each(|x| seen.push(conv(x)));
+    if seen != fwd {
+        return Err(format!("{what}.for_each() visits {seen:?}, expected {fwd:?}"));
+    }
+    if make().rev().last().map(conv) != items.first().cloned() {
+        return Err(format!("{what}.rev().last() differs from the first of {n} items"));
+    }
+    // short-circuiting consumers (try_fold / try_rfold): stop after k items from either end
+    for k in [0usize, 1, 2, n / 2, n] {
+        let mut seen = Vec::new();
+        let _ = make().try_fold((), |(), x| {
+            if seen.len() == k {
+                return Err(());
+            }
+            seen.push(conv(x));
+            Ok(())
+        });
+        if seen != fwd[..k.min(n)] {
+            return Err(format!("{what}.try_fold() stopping after {k} visits {seen:?}, expected {:?}", &fwd[..k.min(n)]));
+        }
+        let mut seen = Vec::new();
+        let _ = make().try_rfold((), |(), x| {
+            if seen.len() == k {
+                return Err(());
+            }
+            seen.push(conv(x));
+            Ok(())
+        });
+        if seen != bwd[..k.min(n)] {
+            return Err(format!("{what}.try_rfold() stopping after {k} visits {seen:?}, expected {:?}", &bwd[..k.min(n)]));
+        }
+        // a partly consumed iterator, then the bulk consumers on the rest
+        let mut it = make();
+        for _ in 0..k.min(2) {
+            let _ = it.next();
+            let _ = it.next_back();
+        }
+        let rest: Vec<T> = if 2 * k.min(2) >= n { Vec::new() } else { fwd[k.min(2)..n - k.min(2)].to_vec() };
+        let got = it.rfold(Vec::new(), push);
+        let want: Vec<T> = rest.iter().rev().cloned().collect();
+        if got != want {
+            return Err(format!("{what}: after {} next() and next_back() calls rfold() visits {got:?}, expected {want:?}", k.min(2)));
+        }
+    }
     for k in [0usize, 1, 2, n.saturating_sub(1), n, n + 1, n + 3] {
         let got: Vec<T> = make().skip(k).take(n + 2).map(conv).collect();
         let want: Vec<T> = items.iter().skip(k).cloned().collect();
